@@ -59,6 +59,28 @@ def _u(n):
     return ast.unparse(n)
 
 
+def call_arg(call, pos, name):
+    """the argument of `call` passed positionally at `pos` or by keyword `name` (None if absent)"""
+    if pos is not None and pos < len(call.args) and not any(isinstance(a, ast.Starred) for a in call.args[:pos + 1]):
+        return call.args[pos]
+    for k in call.keywords:
+        if k.arg == name:
+            return k.value
+    return None
+
+
+def bound_args(call, params, required=None):
+    """arguments of `call` in the order of `params` (positional or keyword); fails on anything else"""
+    _need(len(call.args) <= len(params) and all(k.arg in params for k in call.keywords)
+          and not any(isinstance(a, ast.Starred) for a in call.args), "arguments of %s" % _u(call.func), call)
+    out = [call_arg(call, i, p) for i, p in enumerate(params)]
+    _need(len([x for x in out if x is not None]) == len(call.args) + len(call.keywords),
+          "an argument of %s is passed twice" % _u(call.func), call)
+    for i in range(len(params) if required is None else required):
+        _need(out[i] is not None, "missing argument %s of %s" % (params[i], _u(call.func)), call)
+    return out
+
+
 def _need(cond, what, node=None):
     if not cond:
         raise Unsupported("%s%s" % (what, (": " + _u(node)[:200]) if node is not None else ""))
@@ -118,7 +140,7 @@ def Z(coq):
 
 
 class Ev:
-    def __init__(self, skip_calls=(), cls=None, mod=None):
+    def __init__(self, skip_calls=(), cls=None, mod=None, bases=()):
         self.skip_calls = set(skip_calls)
         self.counter = 0
         self.pending = []          # (fresh name, res-valued coq term) to bind before the statement
@@ -131,10 +153,26 @@ class Ev:
                     decos = [_u(d) for d in n.decorator_list]
                     _need(set(decos) <= {"staticmethod"}, "decorator of %s" % n.name)
                     self.helpers["self." + n.name] = (n, "staticmethod" in decos, True)
+        # inherited methods (resolved like Python does: the class first, then its bases in order);
+        # only those the translation actually calls are inlined
+        for b in bases:
+            for n in b.body:
+                if isinstance(n, ast.FunctionDef) and "self." + n.name not in self.helpers:
+                    decos = [_u(d) for d in n.decorator_list]
+                    if set(decos) <= {"staticmethod"}:
+                        self.helpers["self." + n.name] = (n, "staticmethod" in decos, True)
         if mod is not None:
             for n in mod.body:
                 if isinstance(n, ast.FunctionDef) and not n.decorator_list:
                     self.helpers[n.name] = (n, True, False)
+
+    @staticmethod
+    def truthy(v, node=None):
+        """Python truth value of an int: z != 0"""
+        if v.kind == "Z":
+            return B(coq="(negb (%s =? 0))" % v.coq)
+        _need(v.kind == "B", "truth value of a %s" % v.kind, node)
+        return v
 
     def arg(self, e, env):
         """value of a sub-expression in operand position: a res-valued one is bound first"""
@@ -170,11 +208,15 @@ class Ev:
                 return env[u]
             if u == "np.nan":
                 return V("S", "(None : oq)")
+            if isinstance(e, ast.Attribute) and e.attr in ("size",):
+                a = self.arg(e.value, env)
+                _need(a.kind == "A", ".size of a %s" % a.kind, e)
+                return Z("(zlen %s)" % a.coq)
             raise Unsupported("unbound %s" % u)
         if isinstance(e, ast.UnaryOp):
             v = self.arg(e.operand, env)
             if isinstance(e.op, ast.Not):
-                _need(v.kind == "B", "not on non-bool", e)
+                v = self.truthy(v, e)
                 return B(static=not v.static) if v.is_static_bool() else B(coq="(negb %s)" % v.coq)
             if isinstance(e.op, ast.USub) and v.kind == "Z":
                 return Z("(- %s)" % v.coq)
@@ -188,7 +230,7 @@ class Ev:
                     v = self.arg(sub, env)
                 finally:
                     self.cond_depth -= 1 if i_ else 0
-                _need(v.kind == "B", "bool operand", sub)
+                v = self.truthy(v, sub)
                 if v.is_static_bool():
                     if v.static != is_and:  # False in `and` / True in `or` decides
                         if not parts:
@@ -204,14 +246,28 @@ class Ev:
                 return B(coq=parts[0])
             return B(coq="(" + (" && " if is_and else " || ").join(parts) + ")")
         if isinstance(e, ast.Compare):
-            _need(len(e.ops) == 1, "chained comparison", e)
-            return self.compare(e.ops[0], self.arg(e.left, env), self.arg(e.comparators[0], env), e)
+            if len(e.ops) == 1 and isinstance(e.ops[0], (ast.In, ast.NotIn)):
+                a = self.arg(e.left, env)
+                lit = e.comparators[0]
+                _need(a.kind == "STR" and isinstance(lit, (ast.Tuple, ast.List, ast.Set)) and all(
+                    isinstance(x, ast.Constant) and isinstance(x.value, str) for x in lit.elts),
+                      "membership other than <name> in (<literals>)", e)
+                r = a.static in [x.value for x in lit.elts]
+                return B(static=r if isinstance(e.ops[0], ast.In) else not r)
+            # a < b < c  ==  a < b and b < c (operands are pure)
+            vals = [self.arg(x, env) for x in [e.left] + list(e.comparators)]
+            parts = [self.compare(op, a, b, e) for op, a, b in zip(e.ops, vals, vals[1:])]
+            if len(parts) == 1:
+                return parts[0]
+            if any(p_.is_static_bool() and not p_.static for p_ in parts):
+                return B(static=False)
+            dyn = [p_.coq for p_ in parts if not p_.is_static_bool()]
+            return B(static=True) if not dyn else B(coq="(" + " && ".join(dyn) + ")")
         if isinstance(e, (ast.Tuple, ast.List)) and e.elts and all(
                 isinstance(x, ast.Constant) and isinstance(x.value, str) for x in e.elts):
             return V("STR", static="<text>")       # a tuple of names for a message
         if isinstance(e, ast.IfExp):
-            t = self.arg(e.test, env)
-            _need(t.kind == "B", "conditional expression test", e)
+            t = self.truthy(self.arg(e.test, env), e)
             if t.is_static_bool():
                 return self.arg(e.body if t.static else e.orelse, env)
             self.cond_depth += 1
@@ -309,6 +365,15 @@ class Ev:
             if a.kind == "Y":
                 return Z(a.coq)
             raise Unsupported("len of %s" % a.kind)
+        if f in ("max", "min") and len(args) == 2 and not kw:
+            a, b = self.arg(args[0], env), self.arg(args[1], env)
+            _need(a.kind == "Z" and b.kind == "Z", "%s of integers" % f, e)
+            return Z("(Z.%s %s %s)" % (f, a.coq, b.coq))
+        if isinstance(e.func, ast.Attribute) and e.func.attr in ("all", "any") and not args and not kw \
+                and isinstance(e.func.value, ast.Call) and _u(e.func.value.func) == "np.isnan":
+            # np.isnan(a).all()  ==  np.all(np.isnan(a))
+            return self.call(ast.Call(func=ast.parse("np." + e.func.attr).body[0].value,
+                                      args=[e.func.value], keywords=[]), env)
         if f in ("np.all", "np.any"):
             only(1)
             inner = args[0]
@@ -318,33 +383,33 @@ class Ev:
             _need(a.kind == "A", "np.isnan of %s" % a.kind, e)
             return B(coq="(%s %s)" % ("np_all_isnan" if f == "np.all" else "np_any_isnan", a.coq))
         if f == "np.repeat":
-            only(2)
-            x, n = self.arg(args[0], env), self.arg(args[1], env)
+            a0, a1 = bound_args(e, ["a", "repeats"])
+            x, n = self.arg(a0, env), self.arg(a1, env)
             _need(x.kind == "S" and n.kind == "Z", "np.repeat(scalar, int)", e)
             return V("A", "(np_repeat %s %s)" % (x.coq, n.coq))
         if f == "np.nanmean":
-            only(1, ("axis",))
-            a = self.arg(args[0], env)
-            if a.kind == "A" and not kw:
+            a0, ax = bound_args(e, ["a", "axis"], required=1)
+            a = self.arg(a0, env)
+            if a.kind == "A" and ax is None:
                 return V("S", "(nanmean %s)" % a.coq)
-            if a.kind == "T" and _u(kw.get("axis", ast.Constant(None))) == "0":
+            if a.kind == "T" and ax is not None and _u(ax) == "0":
                 return V("A", "(np_nanmean_axis0 %s)" % a.coq)
             raise Unsupported("np.nanmean on %s with %s" % (a.kind, sorted(kw)))
         if f == "np.full":
-            only(2)
-            n, x = self.arg(args[0], env), self.arg(args[1], env)
-            _need(n.kind == "Z" and x.kind == "S" and _u(args[1]) == "np.nan", "np.full(int, np.nan)", e)
+            a0, a1 = bound_args(e, ["shape", "fill_value"])
+            n, x = self.arg(a0, env), self.arg(a1, env)
+            _need(n.kind == "Z" and x.kind == "S" and x.coq == "(None : oq)", "np.full(int, np.nan)", e)
             return V("A", "(np_full_nan %s)" % n.coq)
-        if f == "np.hstack":
-            only(1)
-            _need(isinstance(args[0], ast.List) and len(args[0].elts) == 2, "np.hstack([a, b])", e)
-            a, b = (self.arg(x, env) for x in args[0].elts)
+        if f in ("np.hstack", "np.concatenate"):     # 1-d arrays: the same
+            (tup,) = bound_args(e, ["tup" if f == "np.hstack" else "arrays"])
+            _need(isinstance(tup, (ast.List, ast.Tuple)) and len(tup.elts) == 2, "np.hstack([a, b])", e)
+            a, b = (self.arg(x, env) for x in tup.elts)
             _need(a.kind == "A" and b.kind == "A", "np.hstack of arrays", e)
             return V("A", "(np_hstack %s %s)" % (a.coq, b.coq))
         if f == "np.tile":
-            _need(len(args) + len(kw) == 2 and len(args) >= 1 and set(kw) <= {"reps"}, "np.tile(a, reps)", e)
-            a = self.arg(args[0], env)
-            r = self.arg(args[1] if len(args) == 2 else kw["reps"], env)
+            a0, a1 = bound_args(e, ["A", "reps"])
+            a = self.arg(a0, env)
+            r = self.arg(a1, env)
             _need(a.kind == "A" and r.kind == "Z", "np.tile(array, int)", e)
             return V("A", "(np_tile %s %s)" % (a.coq, r.coq))
         if f in ("np.int", "int"):
@@ -363,15 +428,10 @@ class Ev:
             c = self.arg(args[1], env)
             _need(c.kind == "Z", "reshape columns", e)
             return V("RT", "(np_reshape_cols %s %s)" % (a.coq, c.coq))
-        if f == "self._predict_nan":
-            only(1)
-            h = self.arg(args[0], env)
-            _need(h.kind == "FH", "_predict_nan(fh)", e)
-            return V("A", "(gen_predict_nan (zlen %s))" % h.coq)
         if isinstance(e.func, ast.Attribute) and e.func.attr in ("to_indexer", "to_relative"):
             h = self.arg(e.func.value, env)
-            only(1)
-            _need(h.kind == "FH" and _u(args[0]) == "self.cutoff", "fh.%s(self.cutoff)" % e.func.attr, e)
+            (c,) = bound_args(e, ["cutoff"])
+            _need(h.kind == "FH" and self.arg(c, env).kind == "CUT", "fh.%s(<the cutoff>)" % e.func.attr, e)
             if e.func.attr == "to_relative":
                 return h                  # the horizon handed to the kernel is the relative one
             return V("I", "(map gen_fh_indexer %s)" % h.coq)
@@ -404,6 +464,37 @@ class Ev:
             _need(a.kind == "Z" and _u(args[1]) == "list", "isinstance(<int>, list)", e)
             return B(static=False)
         raise Unsupported("call %s" % _u(e))
+
+    def select_in_tables(self, st, env):
+        ev = self
+
+        class T(ast.NodeTransformer):
+            def visit_Subscript(self, n):
+                n = self.generic_visit(n)
+                if isinstance(n.value, ast.Name) and n.value.id in env and env[n.value.id].kind == "DICT":
+                    n = ast.Subscript(value=env[n.value.id].static, slice=n.slice, ctx=n.ctx)
+                if isinstance(n.value, ast.Dict) and n.value.keys and all(
+                        isinstance(k, ast.Constant) and isinstance(k.value, str) for k in n.value.keys):
+                    try:
+                        key = ev.expr(n.slice, env)
+                    except Unsupported:
+                        return n
+                    if key.kind == "STR" and key.static in [k.value for k in n.value.keys]:
+                        return n.value.values[[k.value for k in n.value.keys].index(key.static)]
+                return n
+
+            def visit_FunctionDef(self, n):
+                return n
+        if isinstance(st, ast.Assign) and isinstance(st.value, ast.Dict):
+            return st                               # binding a table to a local: see Assign
+        if not any(isinstance(x, ast.Dict) or (isinstance(x, ast.Name) and x.id in env and env[x.id].kind == "DICT")
+                   for x in ast.walk(st)):
+            return st
+        new = copy.copy(st)
+        for field in ("value", "test"):
+            if getattr(st, field, None) is not None and isinstance(getattr(st, field), ast.expr):
+                setattr(new, field, T().visit(copy.deepcopy(getattr(st, field))))
+        return new
 
     # ---- helper calls --------------------------------------------------------------------------
     def is_helper_call(self, n):
@@ -520,6 +611,8 @@ class Ev:
             _need(isinstance(st.exc, ast.Call) and _u(st.exc.func) == "ValueError" and st.cause is None,
                   "raise ValueError(...) expected", st)
             return "Err"
+        # dispatch tables over literals: {"a": x, "b": y}[<static key>] stands for the selected value
+        st = self.select_in_tables(st, env)
         # helper calls in the statement's own expressions are inlined first, innermost first
         roots = []
         if isinstance(st, (ast.Return, ast.Assign)) and st.value is not None:
@@ -567,13 +660,21 @@ class Ev:
             return self.wrap(binds, kret(v, env))
         if isinstance(st, ast.If):
             t, binds = self.evaluated(st.test, env, top=False)
-            _need(t.kind == "B", "if test", st)
+            t = self.truthy(t, st)
             if t.is_static_bool():
                 return self.wrap(binds, self.run((st.body if t.static else st.orelse) + rest, env, kret, kend))
             return self.wrap(binds, "(if %s then %s else %s)" % (
                 t.coq, self.run(st.body + rest, env, kret, kend), self.run(st.orelse + rest, env, kret, kend)))
+        if isinstance(st, ast.AugAssign) and type(st.op) in (ast.Add, ast.Sub, ast.Mult) \
+                and isinstance(st.target, (ast.Name, ast.Attribute)):
+            load = copy.deepcopy(st.target)
+            load.ctx = ast.Load()
+            return self.run([ast.Assign(targets=[st.target], value=ast.BinOp(load, st.op, st.value))] + rest,
+                            env, kret, kend)
+        if isinstance(st, ast.Assign) and len(st.targets) > 1:
+            # a = b = <expr>: <expr> is pure here, so bind each target in turn
+            return self.run([ast.Assign(targets=[t], value=st.value) for t in st.targets] + rest, env, kret, kend)
         if isinstance(st, ast.Assign):
-            _need(len(st.targets) == 1, "multiple targets", st)
             tg = st.targets[0]
             if isinstance(tg, ast.Tuple):
                 _need(isinstance(st.value, ast.Tuple) and len(st.value.elts) == len(tg.elts)
@@ -583,6 +684,10 @@ class Ev:
                 pairs = [(tg, st.value)]
             env2 = dict(env)
             binds = []
+            if isinstance(st.value, ast.Dict) and isinstance(tg, ast.Name):
+                # a literal lookup table bound to a local: kept as syntax, selected from where used
+                env2[tg.id] = V("DICT", static=st.value)
+                return self.run(rest, env2, kret, kend)
             for t, val in pairs:               # all right-hand sides are evaluated in the OLD env
                 _need(isinstance(t, ast.Name) or (isinstance(t, ast.Attribute) and _u(t.value) == "self"),
                       "assignment target", st)
@@ -701,7 +806,7 @@ def _naive_fit(cls, mod, out):
                "  match s with\n%s\n  end.\n" % results["sp"])
 
 
-def _naive_kernel(cls, mod, out):
+def _naive_kernel(cls, mod, out, bases=()):
     fn = find(cls, "_predict_last_window")
     _need(argnames(fn)[:2] == ["self", "fh"], "_predict_last_window signature")
     b = body_of(fn)
@@ -717,10 +822,10 @@ def _naive_kernel(cls, mod, out):
                   for n in ast.walk(fn)) or xname == wname, "the window of X is used")
     arms = []
     for con, sname in STRATS:
-        ev = Ev(cls=cls, mod=mod)
+        ev = Ev(cls=cls, mod=mod, bases=bases)
         # self.sp_ = check_sp(self.sp) = self.sp wherever fit sets it (Bridge: bridge_fit_sp)
         env = {"self.strategy": V("STR", static=sname), "self.sp": Z("sp"), "self.sp_": Z("sp"),
-               wname: V("A", "w"), "fh": V("FH", "hs"), "self.cutoff": V("STR", static="<cutoff>"),
+               wname: V("A", "w"), "fh": V("FH", "hs"), "self.cutoff": V("CUT"),
                "self": V("SELF")}
 
         def kret(v, env2):
@@ -842,20 +947,20 @@ def fh_exprs(repo, out):
     _need(argnames(fn) == ["self", "cutoff"], "to_absolute signature")
     _, leaf = select(C.of(fn), _decider({"self.is_relative": True}), "to_absolute")
     c = _ret_call(leaf, "self._new", "to_absolute")
-    _need(len(c.args) == 1 and {k: _u(v) for k, v in _kw(c).items()} == {"is_relative": "False"},
-          "to_absolute returns self._new(<absolute>, is_relative=False)", c)
+    vals, isrel = bound_args(c, ["values", "is_relative"])
+    _need(_u(isrel) == "False", "to_absolute returns self._new(<absolute>, is_relative=False)", c)
     out.append("Definition gen_fh_abs (cutoff r : Z) : Z := %s.\n"
-               % _int_expr(c.args[0], {"cutoff": "cutoff", "self.to_pandas()": "r"}))
+               % _int_expr(vals, {"cutoff": "cutoff", "self.to_pandas()": "r"}))
     _, leaf = select(C.of(fn), _decider({"self.is_relative": False}), "to_absolute")
     _need(leaf[0] == "RET" and _u(leaf[1]) == "self._new()", "to_absolute is the identity on an absolute horizon")
     # to_relative on an absolute horizon / integer cutoff: self._new(self.to_pandas() - cutoff, is_relative=True)
     fn = find(cls, "to_relative")
     _, leaf = select(C.of(fn), _decider({"self.is_relative": False}), "to_relative")
     c = _ret_call(leaf, "self._new", "to_relative")
-    _need(len(c.args) == 1 and {k: _u(v) for k, v in _kw(c).items()} == {"is_relative": "True"},
-          "to_relative returns self._new(<relative>, is_relative=True)", c)
+    vals, isrel = bound_args(c, ["values", "is_relative"])
+    _need(_u(isrel) == "True", "to_relative returns self._new(<relative>, is_relative=True)", c)
     out.append("Definition gen_fh_rel (cutoff t : Z) : Z := %s.\n"
-               % _int_expr(c.args[0], {"cutoff": "cutoff", "self.to_pandas()": "t"}))
+               % _int_expr(vals, {"cutoff": "cutoff", "self.to_pandas()": "t"}))
     _, leaf = select(C.of(fn), _decider({"self.is_relative": True}), "to_relative")
     _need(leaf[0] == "RET" and _u(leaf[1]) == "self._new()", "to_relative is the identity on a relative horizon")
     # to_absolute_int(start, cutoff) = self._new(self.to_absolute(cutoff).to_pandas() - start, is_relative=False)
@@ -863,10 +968,11 @@ def fh_exprs(repo, out):
     _need(argnames(fn) == ["self", "start", "cutoff"], "to_absolute_int signature")
     _, leaf = select(C.of(fn), _decider({}), "to_absolute_int")
     c = _ret_call(leaf, "self._new", "to_absolute_int")
-    _need(len(c.args) == 1 and {k: _u(v) for k, v in _kw(c).items()} == {"is_relative": "False"},
-          "to_absolute_int returns self._new(<integers>, is_relative=False)", c)
+    vals, isrel = bound_args(c, ["values", "is_relative"])
+    _need(_u(isrel) == "False", "to_absolute_int returns self._new(<integers>, is_relative=False)", c)
+    ABS = ("self.to_absolute(cutoff).to_pandas()", "self.to_absolute(cutoff=cutoff).to_pandas()")
     out.append("Definition gen_fh_abs_int (start t : Z) : Z := %s.\n"
-               % _int_expr(c.args[0], {"start": "start", "self.to_absolute(cutoff).to_pandas()": "t"}))
+               % _int_expr(vals, dict({"start": "start"}, **{a: "t" for a in ABS})))
 
 
 def window_exprs(repo, out):
@@ -874,28 +980,36 @@ def window_exprs(repo, out):
     with open(os.path.join(repo, "sktime/forecasting/base/_sktime.py")) as f:
         mod = ast.parse(f.read())
     cls = find(mod, "_BaseWindowForecaster")
-    # _predict_nan(fh) = np.full(len(fh), np.nan)
-    fn = find(cls, "_predict_nan")
-    _need(argnames(fn) == ["fh"] and C.show(C.of(fn)) == "RET(np.full(len(fh), np.nan))",
-          "_predict_nan(fh) = np.full(len(fh), np.nan)")
-    out.append("Definition gen_predict_nan (k : Z) : list oq := np_full_nan k.\n")
     # _predict: all out-of-sample -> one call at the cutoff; all in-sample -> moving cutoffs; else both
     fn = find(cls, "_predict")
     _need(argnames(fn)[:2] == ["self", "fh"], "_predict signature")
     t = C.of(fn)
-    OOS, INS = "fh.is_all_out_of_sample(self.cutoff)", "fh.is_all_in_sample(self.cutoff)"
+    def is_fh_method(e, name, base="fh"):
+        return (isinstance(e, ast.Call) and isinstance(e.func, ast.Attribute) and e.func.attr == name
+                and _u(e.func.value) == base and len(e.args) + len(e.keywords) == 1
+                and _u(call_arg(e, 0, "cutoff")) == "self.cutoff")
+
+    def dispatch(oos, ins):
+        def decide(test):
+            if _u(test) == "return_pred_int":
+                return False
+            if is_fh_method(test, "is_all_out_of_sample"):
+                return oos
+            if is_fh_method(test, "is_all_in_sample"):
+                return ins
+            return None
+        return decide
 
     def fixed(c):
-        return (isinstance(c, ast.Call) and _u(c.func) == "self._predict_fixed_cutoff" and len(c.args) == 1
-                and _u(c.args[0]) == "fh.to_out_of_sample(self.cutoff)")
+        return (isinstance(c, ast.Call) and _u(c.func) == "self._predict_fixed_cutoff"
+                and call_arg(c, 0, "fh") is not None and is_fh_method(call_arg(c, 0, "fh"), "to_out_of_sample"))
 
     def insample(c):
-        return (isinstance(c, ast.Call) and _u(c.func) == "self._predict_in_sample" and len(c.args) == 1
-                and _u(c.args[0]) == "fh.to_in_sample(self.cutoff)")
-    base = {"return_pred_int": False}
-    e1, l1 = select(t, _decider(dict(base, **{OOS: True, INS: False})), "_predict")
-    e2, l2 = select(t, _decider(dict(base, **{OOS: False, INS: True})), "_predict")
-    e3, l3 = select(t, _decider(dict(base, **{OOS: False, INS: False})), "_predict")
+        return (isinstance(c, ast.Call) and _u(c.func) == "self._predict_in_sample"
+                and call_arg(c, 0, "fh") is not None and is_fh_method(call_arg(c, 0, "fh"), "to_in_sample"))
+    e1, l1 = select(t, dispatch(True, False), "_predict")
+    e2, l2 = select(t, dispatch(False, True), "_predict")
+    e3, l3 = select(t, dispatch(False, False), "_predict")
     _need(not (e1 or e2 or e3), "_predict: effects before the dispatch")
     _need(l1[0] == "RET" and fixed(l1[1]), "_predict: out-of-sample horizons are served by _predict_fixed_cutoff")
     _need(l2[0] == "RET" and insample(l2[1]), "_predict: in-sample horizons are served by _predict_in_sample")
@@ -907,8 +1021,10 @@ def window_exprs(repo, out):
     fn = find(cls, "_predict_fixed_cutoff")
     _, leaf = select(C.of(fn), _decider({}), "_predict_fixed_cutoff")
     c = _ret_call(leaf, "pd.Series", "_predict_fixed_cutoff")
-    _need(len(c.args) == 1 and isinstance(c.args[0], ast.Call) and _u(c.args[0].func) == "self._predict_last_window"
-          and c.args[0].args and _u(c.args[0].args[0]) == "fh", "_predict_fixed_cutoff calls _predict_last_window(fh, ...)")
+    data = call_arg(c, 0, "data")
+    _need(isinstance(data, ast.Call) and _u(data.func) == "self._predict_last_window"
+          and call_arg(data, 0, "fh") is not None and _u(call_arg(data, 0, "fh")) == "fh",
+          "_predict_fixed_cutoff calls _predict_last_window(fh, ...)")
     # _predict_in_sample: _predict_moving_cutoff(self._y, CutoffSplitter(<cutoffs>, fh=k, window_length=
     # self.window_length_), ..., update_params=False)
     fn = find(cls, "_predict_in_sample")
@@ -923,10 +1039,8 @@ def window_exprs(repo, out):
     cut, step, wl = cva.get(0, cva.get("cutoffs")), cva.get(1, cva.get("fh")), cva.get(2, cva.get("window_length"))
     _need(cut is not None and step is not None and wl is not None and _u(wl) == "self.window_length_",
           "CutoffSplitter(cutoffs, fh=k, window_length=self.window_length_)", cv)
-    rel = "fh.to_relative(self.cutoff)"
-
     def cutx(e):
-        if _u(e) == rel:
+        if is_fh_method(e, "to_relative"):
             return "r"
         if isinstance(e, ast.BinOp) and type(e.op) in (ast.Add, ast.Sub):
             return "(%s %s %s)" % (cutx(e.left), "+" if isinstance(e.op, ast.Add) else "-", cutx(e.right))
@@ -950,9 +1064,10 @@ def window_exprs(repo, out):
               and y.func.value.slice.upper is not None and _u(y.func.value.slice.upper) == "self.cutoff",
               "y = self._y.loc[<start>:self.cutoff].to_numpy()", y)
         st = y.func.value.slice.lower
-        _need(isinstance(st, ast.Call) and _u(st.func) == "_shift" and len(st.args) == 1 and _u(st.args[0]) == "self.cutoff"
-              and list(_kw(st)) == ["by"], "start = _shift(self.cutoff, by=...)", st)
-        starts.add(_int_expr(_kw(st)["by"], {"self.window_length_": "wl"}))
+        _need(isinstance(st, ast.Call) and _u(st.func) == "_shift", "start = _shift(self.cutoff, by=...)", st)
+        sx, sby = bound_args(st, ["x", "by"])
+        _need(_u(sx) == "self.cutoff", "start = _shift(self.cutoff, by=...)", st)
+        starts.add(_int_expr(sby, {"self.window_length_": "wl"}))
     _need(len(starts) == 1, "_get_last_window: different windows with / without X")
     out.append("(* first label of the last window (the last one is the cutoff c); _shift(x, by) = x + by *)\n"
                "Definition gen_window_start (c wl : Z) : Z := (c + %s).\n" % starts.pop())
@@ -991,7 +1106,8 @@ def poly(repo, out):
           and len(st) == 5, "fit: _set_y_X; _set_fh; regressor_ = ...; regressor_.fit(...); _is_fitted = True (got %s)" % texts)
     p, fitcall = st[2], st[3]
     _need(isinstance(p, ast.Assign) and _u(p.targets[0]) == "self.regressor_" and isinstance(p.value, ast.Call)
-          and _u(p.value.func) == "make_pipeline" and len(p.value.args) == 2 and not p.value.keywords,
+          and _u(p.value.func) == "make_pipeline" and len(p.value.args) == 2
+          and not any(isinstance(a, ast.Starred) for a in p.value.args) and not p.value.keywords,
           "self.regressor_ = make_pipeline(<features>, <regressor>)", p)
     pf, lr = p.value.args
     _need(isinstance(lr, ast.Call) and _u(lr.func) == "LinearRegression" and not lr.args
@@ -999,10 +1115,11 @@ def poly(repo, out):
           and isinstance(_kw(lr)["fit_intercept"].value, bool), "default regressor LinearRegression(fit_intercept=<bool>)", lr)
     out.append("Definition gen_poly_fit_intercept : bool := %s.\n"
                % ("true" if _kw(lr)["fit_intercept"].value else "false"))
-    _need(isinstance(pf, ast.Call) and _u(pf.func) == "PolynomialFeatures" and not pf.args
-          and sorted(_kw(pf)) == ["degree", "include_bias"], "PolynomialFeatures(degree=, include_bias=)", pf)
+    _need(isinstance(pf, ast.Call) and _u(pf.func) == "PolynomialFeatures" and len(pf.args) <= 1
+          and sorted(list(_kw(pf)) + (["degree"] if pf.args else [])) == ["degree", "include_bias"],
+          "PolynomialFeatures(degree=, include_bias=)", pf)
     ev = Ev()
-    d = ev.expr(_kw(pf)["degree"], {"self.degree": Z("degree")})
+    d = ev.expr(call_arg(pf, 0, "degree"), {"self.degree": Z("degree")})
     _need(d.kind == "Z", "degree expression")
     out.append("Definition gen_poly_degree (degree : Z) : Z := %s.\n" % d.coq)
     ib = ev.expr(_kw(pf)["include_bias"], {"self.with_intercept": B(coq="with_intercept")})
@@ -1017,9 +1134,9 @@ def poly(repo, out):
           "with a user regressor: make_pipeline(<same features>, self.regressor)")
     # regressor_.fit(np.arange(<n_timepoints>).reshape(-1, 1), y)
     fc = fitcall.value if isinstance(fitcall, ast.Expr) else None
-    _need(isinstance(fc, ast.Call) and _u(fc.func) == "self.regressor_.fit" and len(fc.args) == 2 and not fc.keywords
-          and _u(fc.args[1]) == "y", "self.regressor_.fit(<X>, y)", fitcall)
-    x = fc.args[0]
+    _need(isinstance(fc, ast.Call) and _u(fc.func) == "self.regressor_.fit", "self.regressor_.fit(<X>, y)", fitcall)
+    x, fy = bound_args(fc, ["X", "y"])
+    _need(_u(fy) == "y", "self.regressor_.fit(<X>, y)", fitcall)
     _need(isinstance(x, ast.Call) and isinstance(x.func, ast.Attribute) and x.func.attr == "reshape"
           and [_u(a) for a in x.args] == ["-1", "1"] and isinstance(x.func.value, ast.Call)
           and _u(x.func.value.func) == "np.arange" and not x.func.value.keywords and 1 <= len(x.func.value.args) <= 2,
@@ -1054,23 +1171,26 @@ def poly(repo, out):
                                             "X is not None": False}), "PolynomialTrendForecaster._predict")
     _need(not effs, "_predict: effects")
     c = _ret_call(leaf, "pd.Series", "PolynomialTrendForecaster._predict")
-    _need(len(c.args) == 1 and {k: _u(v) for k, v in _kw(c).items()} == {"index": "self.fh.to_absolute(self.cutoff)"},
+    yp, ix = bound_args(c, ["data", "index"])
+    _need(isinstance(ix, ast.Call) and _u(ix.func) == "self.fh.to_absolute"
+          and _u(bound_args(ix, ["cutoff"])[0]) == "self.cutoff",
           "return pd.Series(<y_pred>, index=self.fh.to_absolute(self.cutoff))", c)
     out.append("Definition gen_poly_index (cutoff r : Z) : Z := gen_fh_abs cutoff r.\n")
-    yp = c.args[0]
-    _need(isinstance(yp, ast.Call) and _u(yp.func) == "self.regressor_.predict" and len(yp.args) == 1 and not yp.keywords,
+    _need(isinstance(yp, ast.Call) and _u(yp.func) == "self.regressor_.predict",
           "y_pred = self.regressor_.predict(<X_pred>)", yp)
-    xp = yp.args[0]
+    (xp,) = bound_args(yp, ["X"])
     _need(isinstance(xp, ast.Call) and isinstance(xp.func, ast.Attribute) and xp.func.attr == "reshape"
           and [_u(a) for a in xp.args] == ["-1", "1"] and isinstance(xp.func.value, ast.Call)
           and isinstance(xp.func.value.func, ast.Attribute) and xp.func.value.func.attr == "to_numpy"
           and not xp.func.value.args, "X_pred = <horizon>.to_numpy().reshape(-1, 1)", xp)
     t = xp.func.value.func.value
-    _need(isinstance(t, ast.Call) and _u(t.func) == "self.fh.to_absolute_int" and not t.keywords and len(t.args) == 2
-          and isinstance(t.args[0], ast.Subscript) and _u(t.args[0].value) == "self._y.index"
-          and _u(t.args[1]) == "self.cutoff", "self.fh.to_absolute_int(self._y.index[k], self.cutoff)", t)
+    _need(isinstance(t, ast.Call) and _u(t.func) == "self.fh.to_absolute_int",
+          "self.fh.to_absolute_int(self._y.index[k], self.cutoff)", t)
+    t_start, t_cut = bound_args(t, ["start", "cutoff"])
+    _need(isinstance(t_start, ast.Subscript) and _u(t_start.value) == "self._y.index" and _u(t_cut) == "self.cutoff",
+          "self.fh.to_absolute_int(self._y.index[k], self.cutoff)", t)
     out.append("(* python position in self._y.index of the time point that becomes 0 on the prediction axis *)\n"
-               "Definition gen_poly_origin_pos : Z := %s.\n" % _int_expr(t.args[0].slice, {}))
+               "Definition gen_poly_origin_pos : Z := %s.\n" % _int_expr(t_start.slice, {}))
     out.append("(* the value of the time variable for the relative step r *)\n"
                "Definition gen_poly_pred_time (start cutoff r : Z) : Z := gen_fh_abs_int start (gen_fh_abs cutoff r).\n")
 
@@ -1115,7 +1235,9 @@ def translate(repo):
             isinstance(t, ast.Name) and t.id not in INHERITED_MACHINERY for t in n.targets)),
               "unexpected statement in the body of NaiveForecaster", n)
     _naive_fit(cls, mod, out)
-    _naive_kernel(cls, mod, out)
+    with open(os.path.join(repo, "sktime/forecasting/base/_sktime.py")) as f:
+        base = find(ast.parse(f.read()), "_BaseWindowForecaster")
+    _naive_kernel(cls, mod, out, bases=[base])
     poly(repo, out)
     return {"C11/Gen.v": "\n".join(out)}
 
